@@ -530,8 +530,9 @@ Definition gp_newton_raphson (norm_r : T) (p : list T) (phi : T) (al : list T) (
 Definition gp_psi (al : list T) : T := 1 / sumsql al.
 
 (** [gradient_primal].  [rvec] is the vector whose multiple is written to the w-part of the
-    gradient: the w-part of the point itself ([gp_gradient_primal]); the code before the fix of
-    finding F4 used the stored Hessian vector [data.r] there ([gp_gradient_primal_F4]). *)
+    gradient.  The code as it is uses the stored Hessian vector [data.r] there
+    ([gp_gradient_primal_F4]; finding F4, known and not repaired: see design.d/C14.md);
+    the conjugate map needs the w-part of the point itself ([gp_gradient_primal]). *)
 Definition gp_gradient_primal_with (rvec : list T) (al u w : list T) : list T * list T :=
   let phi := fold_left (fun phi p => phi * pow (fst p) (two * snd p)) (combine u al) 1 in
   let norm_r := sqrt (sumsql w) in
